@@ -27,6 +27,8 @@ m = m.replace("//@   invariant #sleeponlyifempty", "//@   invariant #stopchan se
 i = m.index("//@ func Q.pop\n"); j = m.index("//@ func Q.Pop\n")
 popblock = m[i:j]
 loop = popblock[popblock.index("//@   loop 1"):].rstrip("/\n") + "\n//\n"
+# the stop channel is part of what other goroutines may change while a consumer waits (Close closes it)
+loop = loop.replace("//@     invariant wheld(a.lock) && a.reqList != nil", "//@     invariant a.stopChan != nil && (!a.closed ==> !chanclosed(a.stopChan))\n//@     invariant wheld(a.lock) && a.reqList != nil", 1)
 m = m[:i] + m[j:]
 m = m.replace("//@   modifies Q.closed, a.reqList.lmem, a.reqList.lcnt, list.Element.lrk, list.Element.Value\n//\n//@ func Q.PopAnyway",
               "//@   modifies Q.closed, a.reqList.lmem, a.reqList.lcnt, list.Element.lrk, list.Element.Value\n" + loop + "//@ func Q.PopAnyway")
